@@ -9,6 +9,7 @@ import (
 func init() {
 	verifHarnesses["VerifC07MapOrder"] = VerifC07MapOrder
 	verifHarnesses["VerifC07MapOrderEdgy4"] = VerifC07MapOrderEdgy4
+	verifHarnesses["VerifC07MapOrder4"] = VerifC07MapOrder4
 	verifHarnesses["VerifC07MapOrderEdgy"] = VerifC07MapOrderEdgy
 	verifHarnesses["VerifC07RingDirection"] = VerifC07RingDirection
 	verifHarnesses["VerifC07RingDirectionHole"] = VerifC07RingDirectionHole
@@ -16,6 +17,10 @@ func init() {
 	verifHarnesses["VerifC07ReverseFlagEdgy"] = VerifC07ReverseFlagEdgy
 	verifHarnesses["VerifC07RingDirectionHalf"] = VerifC07RingDirectionHalf
 	verifHarnesses["VerifC08Levels"] = VerifC08Levels
+	verifHarnesses["VerifC08Levels2x2"] = VerifC08Levels2x2
+	verifHarnesses["VerifC08Thin4"] = VerifC08Thin4
+	verifHarnesses["VerifC08Thin4Fine"] = VerifC08Thin4Fine
+	verifHarnesses["VerifC07MapOrderThin5"] = VerifC07MapOrderThin5
 	verifHarnesses["VerifC08LevelsAll"] = VerifC08LevelsAll
 	verifHarnesses["VerifC08LevelsEdgy4"] = VerifC08LevelsEdgy4
 	verifHarnesses["VerifC08LevelsEighth"] = VerifC08LevelsEighth
@@ -59,6 +64,23 @@ func verifC07MapOrderBody(sizes []int, wx, wy, W, mode, idsel int) {
 
 func VerifC07MapOrder()      { verifC07MapOrderBody([]int{3}, 7, 7, 2, verifCentre, 2) }
 func VerifC07MapOrderEdgy()  { verifC07MapOrderBody([]int{3}, 7, 7, 2, verifEdgy, 2) }
+// any 4-vertex ring on pixel centres, default flags only (rings whose routed walk is longer than twice their length)
+func VerifC07MapOrder4() {
+	poly, _ := verifAnyPolygon([]int{4}, 7, 7, 2, verifCentre)
+	ids := verifIDs(2)
+	tms := verifSyntheticTMS(2)
+	verifMapOrder(0)
+	r1, p1 := verifSnapCatch(poly, tms, ids, Config{})
+	verifMapOrder(1)
+	r2, p2 := verifSnapCatch(poly, tms, ids, Config{})
+	verifMapOrder(0)
+	verifCover("twice")
+	verifAssert(p1 == p2, "C07.O1.same-panic-behaviour")
+	if !p1 && !p2 {
+		verifAssert(verifSameResult(r1, r2), "C07.O1.identical-under-any-map-order")
+	}
+}
+
 func VerifC07MapOrderEdgy4() { verifC07MapOrderBody([]int{4}, 7, 7, 2, verifCentre, 2) }
 
 // O-2: a valid polygon written with any subset of its rings reversed gives identical geometry.
@@ -211,7 +233,42 @@ func verifC08One(poly geom.Polygon, cfg Config, pair []tms20.TMID) {
 	}
 }
 
-func VerifC08Levels()      { verifC08Body([]int{3}, 7, 7, 2, verifEdgy, false) }
+func VerifC08Thin4() {
+	verifC08One(verifThinRing(4), Config{}, []tms20.TMID{0, 1})
+	verifCover("compared")
+}
+
+func VerifC08Thin4Fine() {
+	verifC08One(verifThinRing(4), Config{}, []tms20.TMID{1, 2})
+	verifCover("compared")
+}
+
+func VerifC07MapOrderThin5() {
+	poly := verifThinRing(5)
+	ids := verifIDs(2)
+	tms := verifSyntheticTMS(2)
+	verifMapOrder(0)
+	r1, p1 := verifSnapCatch(poly, tms, ids, Config{})
+	verifMapOrder(1)
+	r2, p2 := verifSnapCatch(poly, tms, ids, Config{})
+	verifMapOrder(0)
+	verifCover("twice")
+	verifAssert(p1 == p2, "C07.O1.same-panic-behaviour")
+	if !p1 && !p2 {
+		verifAssert(verifSameResult(r1, r2), "C07.O1.identical-under-any-map-order")
+	}
+}
+
+// quick: any 3-vertex ring on pixel borders/corners/centres of a 2x1-pixel window
+func VerifC08Levels() {
+	ring, _ := verifRingWH("r0v", 3, 7, 7, 2, 1, verifEdgy)
+	for _, pair := range [][]tms20.TMID{{0, 1}, {0, 2}, {1, 2}} {
+		verifC08One(geom.Polygon{ring}, Config{}, pair)
+	}
+	verifCover("compared")
+}
+
+func VerifC08Levels2x2()   { verifC08Body([]int{3}, 7, 7, 2, verifEdgy, false) }
 func VerifC08LevelsAll()   { verifC08Body([]int{3}, 7, 7, 2, verifEdgy, true) }
 func VerifC08LevelsEdgy4() { verifC08Body([]int{4}, 7, 7, 2, verifCentre, true) }
 func VerifC08LevelsEighth() { verifC08Body([]int{3}, 7, 7, 2, verifEighth, false) }
